@@ -149,7 +149,7 @@ def extra(uni, tier, seed):
     from pyvc.runner import Extra
     from realise import C07 as R
     out, n_ok = [], 0
-    for cid, verdict, detail, src in R.bounded_cases():
+    for cid, verdict, detail, src in R.bounded_cases(tier == "thorough"):
         if verdict == "norun":
             out.append(Extra("bounded#InlineTrans[" + cid + "]", False,
                              detail, undecided=True, bounded=True))
